@@ -5,6 +5,7 @@ CONSTANTS
   Starts = "boundary"
   Menu = "full"
   BnKind = "leaf"
+  LenVar = 0
   Emit = FALSE
   SetupSMenu <- NoSetups
   SetupRMenu <- NoSetups
@@ -22,12 +23,13 @@ CONSTANTS
   MaxExports = 1
   MaxSetSeq = 0
   MaxShots = 0
-  OvfFirstInOpen = FALSE
+  OvfFirstInOpen = TRUE
   RecordHist = FALSE
+  HistLen = 0
+VIEW CoreView
+ACTION_CONSTRAINT CheckLast EmitTr
+CHECK_DEADLOCK FALSE
 INVARIANTS
-  NonceIsXor NoncesDistinct AdvanceByOne DeadAfterLimit LiveBeforeLimit
-  AcceptsOnlySealed TamperedRejected VerbatimDecision FailureIsStutter RcvdInOrder CtLen
-  ExportIsPure
+  NonceIsXor NoncesDistinct ConsecutiveSeqs AcceptsOnlySealed RcvdInOrder CtLen
 PROPERTIES
   Latch Monotone
-CHECK_DEADLOCK FALSE
